@@ -13,7 +13,7 @@ ALL = ['C%02d' % i for i in range(1, 21)]
 checks = []
 for pid in ALL:
     spec = props.PROPS.get(pid)
-    if spec is None:
+    if spec is None or pid not in props.ENABLED:
         continue
     checks.append(dict(
         property_id=pid,
@@ -28,8 +28,8 @@ for pid in ALL:
     ))
 
 na = [dict(property_id=pid, reason=props.NOT_APPLICABLE[pid]) for pid in ALL
-      if pid not in props.PROPS and pid in props.NOT_APPLICABLE]
-missing = [pid for pid in ALL if pid not in props.PROPS and pid not in props.NOT_APPLICABLE]
+      if pid in props.NOT_APPLICABLE]
+missing = [pid for pid in ALL if pid not in props.ENABLED and pid not in props.NOT_APPLICABLE]
 if missing:
     raise SystemExit('properties neither claimed nor listed not-applicable: %s' % missing)
 
